@@ -1,7 +1,7 @@
 (* The two round trips of the Pruefer model. *)
 From Coq Require Import List ZArith Bool Arith Lia.
 From Mamba Require Import Codec.PruferMulticodeBase Codec.PruferMulticodeFacts Codec.PruferModel
-  Codec.PruferTree Codec.PruferDecodeProofs Codec.PruferEncodeProofs Codec.PruferConnected.
+  Codec.PruferTree Codec.PruferDecodeProofs Codec.PruferEncodeProofs Codec.PruferConnected Codec.PruferNewDense.
 Import ListNotations.
 
 (* g is a tree: leaf elimination on all its vertices (see PruferTree.v, PruferConnected.v) *)
@@ -43,15 +43,24 @@ Proof.
 Qed.
 
 (* decode, then encode *)
+Lemma prufer_decode_code c : valid_code c ->
+  prufer_decode (map Z.of_nat c) = Ok (dense_of (code_graph c)).
+Proof.
+  intros H. unfold prufer_decode. rewrite prufer_decode_args_dec by auto. cbn [bind fst snd].
+  fold (code_bits c).
+  rewrite <- (tri_bits_graph_of_bits (length c + 2) (code_bits c)) at 1 by apply length_bits_of.
+  apply (new_dense_ok (code_graph c)). apply code_graph_simple.
+Qed.
+
 Theorem prufer_decode_encode c : valid_code c ->
-  prufer_decode (map Z.of_nat c) = Ok (length c + 2, code_bits c) /\
-  length (code_bits c) = tri (length c + 2) /\
+  prufer_decode (map Z.of_nat c) = Ok (dense_of (code_graph c)) /\
+  gn (code_graph c) = length c + 2 /\
   is_tree (code_graph c) /\
   prufer_encode (code_graph c) = Ok (map Z.of_nat c).
 Proof.
   intros H. destruct (code_graph_facts c H) as (T & E & _).
-  split; [apply prufer_decode_dec; auto|].
-  split; [apply length_bits_of|]. split; auto.
+  split; [apply prufer_decode_code; auto|].
+  split; [reflexivity|]. split; auto.
   rewrite prufer_encode_enc; auto.
   - cbn [gn code_graph graph_of_bits]. replace (length c + 2 - 2) with (length c) by lia.
     rewrite E. reflexivity.
@@ -63,9 +72,9 @@ Qed.
 Theorem prufer_encode_decode g :
   simple g -> gn g >= 2 -> is_tree g ->
   exists c, prufer_encode g = Ok (map Z.of_nat c) /\ length c = gn g - 2 /\ valid_code c /\
-            prufer_decode (map Z.of_nat c) = Ok (gn g, tri_bits g).
+            prufer_decode (map Z.of_nat c) = Ok (dense_of g).
 Proof.
-  intros [Hsym Hirr] Hn T. set (n := gn g) in *.
+  intros Hs Hn T. pose proof Hs as [Hsym Hirr]. set (n := gn g) in *.
   destruct (enc_dec (n - 2) (seq 0 n) (gadj g) Hsym Hirr (seq_NoDup n 0)) as (I1 & I2 & _ & I4); auto.
   { rewrite seq_length. lia. }
   set (c := enc (gadj g) (n - 2) (seq 0 n)) in *.
@@ -73,8 +82,9 @@ Proof.
   assert (V : valid_code c).
   { intros x Hx. apply I1 in Hx. apply in_seq in Hx. lia. }
   exists c. repeat split; auto.
-  - apply prufer_encode_enc; auto. split; auto.
-  - rewrite prufer_decode_dec by auto. rewrite Hlen. f_equal. f_equal.
+  - apply prufer_encode_enc; auto.
+  - unfold prufer_decode. rewrite prufer_decode_args_dec by auto. cbn [bind fst snd]. rewrite Hlen.
+    rewrite <- (new_dense_ok g Hs). fold n. f_equal.
     pose proof (code_edges_ok c V) as EO. rewrite Hlen in EO.
     apply (nth_ext _ _ false false).
     + rewrite length_bits_of, length_tri_bits. reflexivity.
@@ -92,7 +102,12 @@ Proof.
   intros V1 V2 E.
   destruct (prufer_decode_encode c1 V1) as (D1 & _ & _ & E1).
   destruct (prufer_decode_encode c2 V2) as (D2 & _ & _ & E2).
-  rewrite D1, D2 in E. inversion E as [[Hn Hb]].
+  rewrite D1, D2 in E.
+  assert (E' : dense_of (code_graph c1) = dense_of (code_graph c2)) by congruence.
+  pose proof (f_equal dn E') as Hn. pose proof (f_equal dedges E') as Hb.
+  cbn [dn dedges dense_of] in Hn, Hb.
+  cbn [gn code_graph graph_of_bits] in Hn.
+  unfold code_graph in Hb. rewrite !tri_bits_graph_of_bits in Hb by apply length_bits_of.
   assert (G : code_graph c1 = code_graph c2) by (unfold code_graph; rewrite Hn, Hb; reflexivity).
   rewrite G in E1. rewrite E1 in E2. inversion E2 as [HM].
   clear - HM. revert c2 HM. induction c1 as [|a c1 IH]; intros [|b c2] Q; simpl in Q; try discriminate; auto.
@@ -118,7 +133,7 @@ Qed.
 Theorem prufer_encode_decode_connected g :
   simple g -> gn g >= 2 -> connected_tree g ->
   exists c, prufer_encode g = Ok (map Z.of_nat c) /\ length c = gn g - 2 /\ valid_code c /\
-            prufer_decode (map Z.of_nat c) = Ok (gn g, tri_bits g).
+            prufer_decode (map Z.of_nat c) = Ok (dense_of g).
 Proof.
   intros Hs Hn T. apply prufer_encode_decode; auto.
   apply is_tree_iff_connected_tree; auto. lia.
